@@ -17,7 +17,7 @@ def canon_prv(trace, P, fixer):
 
 class C15(Prop):
     layouts = True
-    translators = ['elicitor', 'bsearch', 'rootn', 'thrrules', 'm2q']   # the three binary_search functions and Elicitor.__init__ / Elicitor.elicit regenerated from elicitation_utils.py on every run
+    translators = ['elicitor', 'bsearch', 'rootn', 'thrrules', 'm2q', 'elicitclasses']   # the three binary_search functions and Elicitor.__init__ / Elicitor.elicit regenerated from elicitation_utils.py on every run
     pid = "C15"
     sources = ["socialchoicekit/elicitation_utils.py", "socialchoicekit/elicitation_voting.py", "socialchoicekit/elicitation_allocation.py", "socialchoicekit/elicitation_matching.py"]
     groups = {"thr": Group("thr", REQ, "ElicitRules.thr_case", "ElicitRules.chk_thr"),
